@@ -14,7 +14,8 @@ Step(o) == [c |-> o, seq |-> seq', savedIn |-> savedIn', allowBuf |-> allowBuf',
 
 GInit == /\ \E sup \in SupportedSets : \E b \in BOOLEAN : InitWith(sup, b)
          /\ path = <<>>
-GNext == Next /\ path' = Append(path, Step(obs'))
+GNext == \/ Next /\ path' = Append(path, Step(obs'))
+         \/ \E sup \in SupportedSets : Reinit(sup) /\ path' = Append(path, Step(obs'))
 GSpec == GInit /\ [][GNext]_<<vars, path>>
 GView == <<inited, supported, seq, savedIn, allowBuf>>
 Emit == PrintT(<<"PLAN", ToJson([inited |-> inited, supported |-> supported, steps |-> path'])>>)
